@@ -288,6 +288,12 @@ class Run:
 
             ops.enrich_start(self)
         pin = opcx.Pkg.from_bytes(data)
+        # "... equal to the type it was created or loaded with": the type each loaded part has IN THE INPUT, read by the harness
+        self.loaded_types = {}
+        for part in self.prs.part.package.iter_parts():
+            t = pin.ctype(str(part.partname)) if pin.has_part(str(part.partname)) else None
+            if t is not None:
+                self.loaded_types[id(part)] = (part, str(part.partname), t)
         self.baseline_closure = Counter((r, _norm_detail(d)) for r, d in opcx.closure_problems(pin))
         for part in xml_parts(self.prs):
             errs, why = xsdkit.validate_part(etree.tostring(part._element))
@@ -476,6 +482,11 @@ class Run:
             for (rule, det), n in fresh.items():
                 self.report("C02", "closure:%s" % rule, "save #%d: %s %s" % (self.saves, rule, det))
             self.acc.count("saves_checked_for_closure")
+            for part in prs.part.package.iter_parts():
+                rec = getattr(self, "loaded_types", {}).get(id(part))
+                if rec is not None and rec[0] is part and pout.has_part(str(part.partname)) and pout.ctype(str(part.partname)) != rec[2]:
+                    self.report("C02", "content-type-changed-from-loaded:%s" % rec[2], "save #%d: %s (loaded as %s with type %r) is written with type %r" % (self.saves, part.partname, rec[1], rec[2], pout.ctype(str(part.partname))))
+            self.acc.count("loaded_part_types_compared", len(getattr(self, "loaded_types", {})))
             # every in-memory part is in the file under its name
             for pn in expect_types:
                 if not pout.has_part(pn):
@@ -741,7 +752,7 @@ def run_histories(profile, deciders, unit, tier, seed, acc, save_every=None, sta
     with env.Scratch("hist") as tmp:
         for i in range(unit["lo"], unit["hi"]):
             r = env.rng("start", profile, seed, i)
-            start = pick_start(r, starts)
+            start = pick_start(r, starts, i)
             run = Run(profile, start, (seed, i), unit["nops"], acc, deciders, tmp, save_every=save_every)
             run.observe = unit.get("observe", ())
             run.run()
@@ -757,10 +768,12 @@ def run_histories(profile, deciders, unit, tier, seed, acc, save_every=None, sta
     monitors.SINK.counters.clear()
 
 
-def pick_start(r, starts=None):
+def pick_start(r, starts=None, index=None):
     k = r.random()
     if starts == "default-only":
         return {"kind": "default"}
+    if index is not None and index < len(corpus_starts()):
+        return corpus_starts()[index]  # the first histories of a run take every corpus deck once, whatever the seed; the rest draw
     if k < 0.45:
         return {"kind": "default"}
     if k < 0.6:
